@@ -53,9 +53,20 @@ impl<T> Consumer<T> {
             r is Err && old(self).closed() ==> final(self).drained(),
     { unimplemented!() }
 
+    // closed(): the producer is gone (a fact about the world at the time of the call; it can become
+    // true between two calls, never false again -- see pop).  is_abandoned reads exactly that fact.
     #[verifier::external_body]
     pub fn is_abandoned(&self) -> (b: bool)
-        ensures b ==> self.closed(),
+        ensures b == self.closed(),
+    { unimplemented!() }
+
+    // how full the ring looks is unstable under interference: nothing is promised
+    #[verifier::external_body]
+    pub fn is_empty(&self) -> (b: bool)
+    { unimplemented!() }
+
+    #[verifier::external_body]
+    pub fn slots(&self) -> (n: usize)
     { unimplemented!() }
 }
 
